@@ -112,8 +112,49 @@ func Gen(r *core.Rand, o GenOpts) *Scenario {
 	active := [NReaders]bool{}
 	inTx := false
 	sc.Ops = append(sc.Ops, wop(), Op{K: "ck"})
+	obsOrCk := func() Op {
+		if o.Observe && r.Bool(0.5) {
+			return genObs(r, o)
+		}
+		return Op{K: "ck"}
+	}
+	// short write: a restarted WAL that receives fewer frames than the previous
+	// generation had keeps stale frames of that generation behind its end
+	small := func() Op {
+		return Op{K: "w", T: "ins", Tab: pickTab(), N: r.Range(1, 2), Sz: r.Range(1, 30), S: r.Uint64()}
+	}
 	for len(sc.Ops) < nops {
 		x := r.Intn(100)
+		if useReaders && r.Bool(0.12) {
+			// Patterns around the three checkpoint outcomes. They are only
+			// likely, not certain, to produce the outcome named: what happens
+			// depends on the state the earlier ops left.
+			i := r.Intn(NReaders)
+			j := (i + 1 + r.Intn(NReaders-1)) % NReaders
+			var m []Op
+			switch r.Intn(5) {
+			case 0: // all moved, not truncated; readers gone; next write restarts the WAL
+				m = []Op{wop(), {K: "rs", I: i}, {K: "ck"}, {K: "re", I: i}, small(), obsOrCk()}
+			case 1: // all moved, not truncated; reader stays; writes are appended; resume offset used
+				m = []Op{wop(), {K: "rs", I: i}, {K: "ck"}, wop(), obsOrCk(), {K: "re", I: i}, wop(), {K: "ck"}}
+			case 2: // reader older than the last write: only some pages can move
+				m = []Op{{K: "rs", I: i}, wop(), wop(), {K: "ck"}, {K: "re", I: i}}
+			case 3: // after an all-moved attempt a new reader reads the main file only (lock 0): the WAL restarts under it and then nothing can be moved
+				m = []Op{wop(), {K: "rs", I: i}, {K: "ck"}, {K: "re", I: i}, {K: "rs", I: j}, small(), {K: "ck"}, {K: "re", I: j}, {K: "ck"}}
+			default: // two generations of resets in a row
+				m = []Op{wop(), wop(), {K: "rs", I: i}, {K: "ck"}, {K: "re", I: i}, small(), {K: "rs", I: j}, {K: "ck"}, {K: "re", I: j}, small(), obsOrCk()}
+			}
+			for _, op := range m {
+				if op.K == "rs" {
+					active[op.I] = true
+				}
+				if op.K == "re" {
+					active[op.I] = false
+				}
+			}
+			sc.Ops = append(sc.Ops, m...)
+			continue
+		}
 		switch {
 		case x < 40:
 			sc.Ops = append(sc.Ops, wop())
